@@ -955,13 +955,23 @@ impl Parsed {
             guessed_offset = tz.offset_from_utc_datetime(&dt).fix().local_minus_utc();
         }
 
-        // checks if the given `DateTime` has a consistent `Offset` with given `self.offset`.
+        // checks if the given `DateTime` has a consistent `Offset` with given `self.offset`, and is
+        // the instant of `self.timestamp` (which may be off by one second for a leap second).
         let check_offset = |dt: &DateTime<Tz>| {
             if let Some(offset) = self.offset {
-                dt.offset().fix().local_minus_utc() == offset
-            } else {
-                true
+                if dt.offset().fix().local_minus_utc() != offset {
+                    return false;
+                }
             }
+            if let Some(given_timestamp) = self.timestamp {
+                let timestamp = dt.timestamp();
+                if given_timestamp != timestamp
+                    && !(dt.nanosecond() >= 1_000_000_000 && given_timestamp == timestamp + 1)
+                {
+                    return false;
+                }
+            }
+            true
         };
 
         // `guessed_offset` should be correct when `self.timestamp` is given.
